@@ -13,10 +13,12 @@ LEVEL_TEXT = ('Lean 4 theorems, for all shapes/offsets/data and any number of ov
               'sample by sample; Wavefront.insert adds weight*intensity and nothing else; Plane.multiply multiplies the embedded field by '
               'amplitude*exp(2 pi i opd/lambda) inside the mask and by 0 outside, for scalar/array amplitude, OPD and mask in every '
               'combination (explicit Complex.exp for any segment list and for scalar masks); wavelength is handed over unchanged, the focal length passes through a plane unchanged when truthy and becomes inf when None/0 (generated Wavefront.__init__ rule), a Pupil hands over its focal length, the default plane is the identity, '
-              '_mul_pixelscale (regenerated from plane.py on every run) refuses exactly the defined-and-different pairs, independently of the unit of length; the phase argument, the metadata hand-over of Plane/Pupil/Image.multiply and the wiring of the three views (which goes through reduce, intensity flag, weight) are regenerated from the source and consumed by the model; insert/intensity always return (C06 reduce_defined). The array plumbing '
+              '_mul_pixelscale (regenerated from plane.py on every run) refuses exactly the defined-and-different pairs, independently of the unit of length; the phase argument, the metadata hand-over of Plane/Pupil/Image.multiply and the wiring of the three views (which goes through reduce, intensity flag, weight) are regenerated from the source and consumed by the model; insert/intensity of the model always return (C06 reduce_defined; the code additionally hits the Python recursion limit in _disjoint at about 1000 mutually overlapping fields). The array plumbing '
               'is a hand model checked against the implementation on exact and floating-point data.')
-LEVEL_NOTE = ('Partial in one respect: fields/segments with exactly one element are excluded by hypothesis (lentil treats every '
-              'size-1 array as a broadcastable scalar; open known finding KF-C07-one-pixel-segment). Trusted: Lean kernel, py2lean subset '
+LEVEL_NOTE = ('Partial: (1) fields/segments with exactly one element are excluded by hypothesis (lentil treats every size-1 array as a '
+              'broadcastable scalar; open known finding KF-C07-one-pixel-segment, which includes one-sample fields off centre under a default plane); '
+              '(2) chains that interleave planes and propagations are covered step by step by theorems and as a whole by correspondence and oracle only; '
+              '(3) views on shape-() / zero-dimensional data are oracle-only; (4) multiply overrides other than Plane/Pupil/Image/Tilt are not exercised. Trusted: Lean kernel, py2lean subset '
               'semantics, NumPy slicing/broadcast/exp semantics as modelled, generator coverage of the correspondence.')
 TECHNIQUE = 'Lean 4 proof (omega/induction/ring) over translator-regenerated kernels + hand model with differential correspondence'
 GEN = ['Extent', 'FieldDispatch', 'FieldIdx', 'FieldMerge', 'Helper', 'Helper20', 'Hex', 'Mesh', 'PlaneHandover', 'PlanePhase', 'PlanePx', 'PropagateMeta', 'TiltFit', 'Util', 'Window', 'WfViews', 'FieldAccum']
@@ -29,7 +31,9 @@ RULE = ('cases: chains of 1..4 planes on a fresh wavefront, the class drawn per 
         'None-patterns; an extremes stream (physical units 1e-9..1e3, nanometre OPD maps, near-equal float pixel scales; 5 % of quick/thorough, half '
         'of the failing-input search); oracle-only views on shape-() wavefronts, zero-dimensional fields and a single (1,1) field. '
         'distinct = canonical (mode, plane kinds, attribute kinds, shapes, boxes) signature; non-trivial = at least one array attribute or more than one field')
-TRUSTED = ['NumPy slicing/broadcasting of amplitude[s]*mask[s]*exp(2 pi i opd[s]/wavelength) and util.boundary (modelled by hand in Model/Plane.lean)',
+TRUSTED = ['the constructor\'s mask normalisation (mask != 0, mask=None -> amplitude != 0) is applied by the harness (plane_mask_layers) before the model sees a plane; Plane.__init__ is pinned',
+           'NumPy casting in out[...] += ...: accumulation targets are float64 arrays',
+           'NumPy slicing/broadcasting of amplitude[s]*mask[s]*exp(2 pi i opd[s]/wavelength) and util.boundary (modelled by hand in Model/Plane.lean)',
            'pixel scales are compared for equality only; the model carries them as integers',
            'np.exp(1j*t) = cos t + i sin t (Float model) ; |z**2| = re^2 + im^2 up to rounding']
 UNPROVEN = ['fields and segment phasors with exactly one element are outside the theorems (known finding KF-C07-one-pixel-segment)',
@@ -40,7 +44,10 @@ UNPROVEN = ['fields and segment phasors with exactly one element are outside the
             'Rotate/Flip.multiply raise AttributeError (open known finding of C08)',
             'the plane-type admission test of Plane.multiply (C08) and tilt bookkeeping (C04) are not part of this model',
             'the constructor\'s mask normalisation (mask != 0, mask=None -> amplitude) is applied by the harness before the model sees the plane (Plane.__init__ is pinned)']
-ASSUMPTIONS = ['every segment bounding box and every intermediate field that is multiplied by a further plane has more than one element (a propagation window of a single output sample is generated: the views of one-element fields are defined since the repo fix of _merge_shape)',
+ASSUMPTIONS = ['3-D masks have at least two layers: a 3-D mask with a single layer makes Plane.multiply raise ValueError on the unchanged tree (reported with a candidate fix; single-layer cases are parked on branch wC-single-layer)',
+               'accumulation targets of Wavefront.insert are float64 arrays (an int64 target raises NumPy\'s casting error, float32 rounds)',
+               'fewer than about 990 mutually overlapping fields (Python recursion limit in field._disjoint)',
+               'every segment bounding box and every intermediate field that is multiplied by a further plane has more than one element (a propagation window of a single output sample is generated: the views of one-element fields are defined since the repo fix of _merge_shape)',
                'attribute arrays have the shape of the mask (otherwise NumPy raises or broadcasts; malformed input)']
 
 WL_GI = 2.0 ** -20      # k*WL_GI/4 is exact in float64
@@ -439,6 +446,7 @@ def _mkind(m): return 'none' if m is None else 'scalar' if 'scalar' in m else f"
 
 def signature(c):
     k = c['kind']
+    if k == 'onefield': return 'onefield ' + json.dumps({x: y for x, y in c.items() if x != 'kind' and not x.startswith('_')}, sort_keys=True)
     if k == 'views0': return 'views0 ' + json.dumps({x: y for x, y in c.items() if x != 'kind'}, sort_keys=True)
     if k == 'pchain':
         return 'pchain ' + ' | '.join(('prop ' + str(e['shape']) + 'x' + str(e['os']) + ' ' + str(e['prop_shape'])) if e['kind'] == 'propagate' else
@@ -451,6 +459,7 @@ def signature(c):
 
 def nontrivial(c):
     k = c['kind']
+    if k == 'onefield': return True
     if k == 'views0': return c['sub'] != 'fresh' or c['ndefault'] > 0
     if k == 'pchain': return True
     if k == 'px': return c['a'] is not None or c['b'] is not None
@@ -466,6 +475,7 @@ def _boxes_overlap(pl):
 def tags(c):
     k = c['kind']
     t = [k]
+    if k == 'onefield': return t + ['onefield:' + ('origin' if c['off'] == [0, 0] else 'off-centre')]
     if k == 'views0': return t + ['views0:' + c['sub']]
     if k == 'pchain':
         ks = [e['kind'] for e in c['elements']]
@@ -539,6 +549,9 @@ def wf_out(w, c):
     if len(w.shape) == 2:
         o['field'] = arr_out(w.field, mode)
         o['intensity'] = arr_out(w.intensity, mode)
+        # the views are reads: a second intensity, then field, then intensity again must repeat the first answers
+        i2 = arr_out(w.intensity, mode); f2 = arr_out(w.field, mode); i3 = arr_out(w.intensity, mode)
+        o['reread_same'] = (i2 == o['intensity'] and f2 == o['field'] and i3 == o['intensity'])
     if 'insert' in c and all(f.data.ndim == 2 for f in w.data):
         out = np_data(c['insert']['out']).real.copy()
         r = w.insert(out, c['insert']['weight'])
@@ -589,8 +602,22 @@ def _run_views0(c):
     r = w.insert(out, c['weight'])
     return {'field': cx(w.field), 'intensity': float(w.intensity), 'insert': float(r), 'fshape': list(np.shape(w.field)), 'ishape': list(np.shape(w.intensity))}
 
+def _run_onefield(c):
+    """a wavefront holding one (1,1) field at an offset, multiplied by a plane with default attributes"""
+    lentil = vlib.import_lentil()
+    from lentil.field import Field
+    w = lentil.Wavefront.empty(1e-6, shape=tuple(c['shape']), ptype=lentil.image)
+    w.data = [Field(np.array([[complex(*c['val'])]]), offset=list(c['off']))]
+    w2 = w * (lentil.Image() if c['plane'] == 'image' else lentil.Tilt(x=0, y=0))
+    return {'data': [fld_out(f, 'gi') for f in w2.data], 'shape': [int(x) for x in w2.shape]}
+
 def impl(c):
     lentil = vlib.import_lentil()
+    if c['kind'] == 'onefield':
+        try:
+            return _run_onefield(c)
+        except (ValueError, IndexError, TypeError) as e:
+            return {'exc': type(e).__name__, 'msg': str(e)[:200]}
     if c['kind'] == 'views0':
         try:
             return _run_views0(c)
@@ -644,7 +671,7 @@ def arr_req(a, mode):
 
 def requests(c, io):
     k = c['kind']
-    if k == 'views0': return []          # oracle-only: zero-dimensional data is outside the array model
+    if k in ('views0', 'onefield'): return []          # oracle-only
     if k == 'pchain':
         els = []
         for e in c['elements']:
@@ -735,7 +762,7 @@ def _field_box(fl):
     return (min(e[0] for e in es) - 1, max(e[1] for e in es) + 1, min(e[2] for e in es) - 1, max(e[3] for e in es) + 1)
 
 def compare(c, io, mo):
-    if c['kind'] == 'views0': return None
+    if c['kind'] in ('views0', 'onefield'): return None
     m = mo[0]
     k = c['kind']
     if 'exc' in io:
@@ -873,6 +900,13 @@ def _oracle_views0(c, io):
 
 def oracle(c, io):
     k = c['kind']
+    if k == 'onefield':
+        if 'exc' in io: return f"default plane on a one-sample field raised {io['exc']}"
+        want = [{'shape': [1, 1], 're': [c['val'][0]], 'im': [c['val'][1]], 'off': c['off']}]
+        box = _field_box(want)
+        if not np.array_equal(_canvas(io['data'], box, _np_arr), _canvas(want, box, _np_arr)):
+            return f"a plane with default attributes ({c['plane']}) changed a one-sample field at offset {c['off']}: {len(io['data'])} field(s) left"
+        return None
     if k == 'views0': return _oracle_views0(c, io)
     if k == 'pchain': return _oracle_pchain(c, io)
     if k == 'px':
@@ -921,6 +955,7 @@ def oracle(c, io):
         box = _field_box(c['fields'])
         total = _canvas(c['fields'], box, np_data)
     # views: field = coherent sum; intensity = |field|^2; insert adds weight*intensity and nothing else
+    if io.get('reread_same') is False: return 'reading intensity/field a second time on the same wavefront gave different values (a view modified the wavefront)'
     if 'field' in io:
         S0, S1 = io['shape']
         tb = (-(S0 // 2), -(S0 // 2) + S0 - 1, -(S1 // 2), -(S1 // 2) + S1 - 1)
@@ -941,7 +976,7 @@ def oracle(c, io):
     return None
 
 def shrink(c):
-    if c['kind'] in ('pchain', 'views0'): return
+    if c['kind'] in ('pchain', 'views0', 'onefield'): return
     if c['kind'] == 'chain':
         if len(c['planes']) > 1:
             for i in range(len(c['planes'])):
@@ -955,6 +990,8 @@ def shrink(c):
 # ------------------------------------------------------------------------------------------ known finding
 def matches_finding(kf, c, msg):
     """KF-C07-one-pixel-segment: the case contains a one-element phasor or intermediate field and the phasor statement fails"""
+    if kf.get('id') == 'KF-C07-one-pixel-segment' and c.get('kind') == 'onefield':
+        return c['off'] != [0, 0] and 'a plane with default attributes' in msg
     if kf.get('id') != 'KF-C07-one-pixel-segment' or c.get('kind') != 'chain': return False
     return has_one_element_field(c['planes']) and ('inside the mask' in msg or 'constant field' in msg)
 
